@@ -252,6 +252,13 @@ class RenderFaultSpan(SpanToken):
     precedence = 6
 
 
+class RenderAbortSpan(SpanToken):
+    """Parses fine; its render function raises a BaseException subclass (think KeyboardInterrupt inside a callback)."""
+    pattern = re.compile('(RENDERABORT)')
+    parse_inner = False
+    precedence = 6
+
+
 class RenderFaultBlock(BlockToken):
     """Parses fine; its render function raises."""
     def __init__(self, lines):
@@ -310,13 +317,13 @@ TOKENS = {
     'FaultBlockStart': FaultBlockStart, 'FaultBlockRead': FaultBlockRead, 'FaultBlockInit': FaultBlockInit,
     'FaultBlockInterrupt': FaultBlockInterrupt, 'FaultSpanFind': FaultSpanFind, 'FaultSpanInit': FaultSpanInit,
     'FaultBlockReadAbort': FaultBlockReadAbort, 'FaultSpanInitAbort': FaultSpanInitAbort,
-    'RenderFaultSpan': RenderFaultSpan, 'RenderFaultBlock': RenderFaultBlock,
+    'RenderFaultSpan': RenderFaultSpan, 'RenderFaultBlock': RenderFaultBlock, 'RenderAbortSpan': RenderAbortSpan,
 }
 BENIGN_SPAN = ['Curly', 'CurlyRaw', 'CurlyLow', 'CurlyTwin', 'DashStrike']
 BENIGN_BLOCK = ['Bang', 'BangInterrupt', 'CalloutHeading']
 FAULT_BLOCK = ['FaultBlockStart', 'FaultBlockRead', 'FaultBlockInit', 'FaultBlockInterrupt', 'FaultBlockReadAbort']
 FAULT_SPAN = ['FaultSpanFind', 'FaultSpanInit', 'FaultSpanInitAbort']
-FAULT_RENDER = ['RenderFaultSpan', 'RenderFaultBlock']
+FAULT_RENDER = ['RenderFaultSpan', 'RenderFaultBlock', 'RenderAbortSpan']
 
 
 def is_span(tok_id):
@@ -330,6 +337,10 @@ def _render_func(tok_id, rid, r):
         def boom(token, **kw):
             raise InjectedFault('render.' + tok_id)
         return boom
+    if tok_id == 'RenderAbortSpan':
+        def abort(token, **kw):
+            raise InjectedAbort('render.' + tok_id)
+        return abort
     if tok_id.startswith('Fault'):
         def unreachable(token, **kw):     # tokens that never get constructed
             return '' if fam != 'markdown' else []
@@ -533,6 +544,8 @@ def _exec_ctx(bi, block, emit):
                     def do():
                         try:
                             d = mistletoe.Document(step['doc'])
+                            if step.get('mutate'):
+                                _tweak_tree(d)
                             phase[0] = 'render'
                             return r.render(d)
                         except (Exception, InjectedAbort) as e:
@@ -566,6 +579,23 @@ def _exec_ctx(bi, block, emit):
             # leaving the with-block raised something of its own (an __exit__ that fails): an observation like any other
             fp = fingerprint()
             emit({'b': bi, 's': -3, 'kind': 'LEAVE', 'outcome': core.norm_exc(e), 'pre': fp, 'post': fp})
+
+
+def _tweak_tree(tok):
+    """The documented 'parse, tweak the tree, render' use (dev-guide recipe): the caller edits tokens of ITS document in
+    place - text upper-cased, headings demoted, link targets rewritten. Must never show in any other document."""
+    children = getattr(tok, 'children', None)
+    if type(tok).__name__ == 'RawText' and isinstance(getattr(tok, 'content', None), str):
+        tok.content = tok.content.upper()
+    if type(tok).__name__ in ('Heading', 'SetextHeading') and isinstance(getattr(tok, 'level', None), int):
+        tok.level = min(6, tok.level + 1)
+    if type(tok).__name__ == 'Link' and isinstance(getattr(tok, 'target', None), str):
+        tok.target = tok.target + '?tweaked'
+    if children:
+        for c in list(children):
+            _tweak_tree(c)
+    if getattr(tok, 'header', None) is not None and type(tok).__name__ == 'Table':
+        _tweak_tree(tok.header)
 
 
 def _exec_nested(bi, si, step, emit):
